@@ -98,7 +98,7 @@ def replay_file(path):
         from . import sources
         e0 = c["event"]
         if e0["k"] == "list":
-            evs = sources.list_case("r", {"keys": e0["keys"], "prefixGiven": e0["prefixGiven"], "size": e0["size"]})
+            evs = sources.list_case("r", {"keys": e0["keys"], "prefixGiven": e0["prefixGiven"], "prefixKey": e0.get("prefixKey", 0), "size": e0["size"]})
         else:
             print("load case: see stored outcomes")
             evs = [e0]
